@@ -9,14 +9,22 @@ EXTENDS MambaStatic, Json
 CONSTANTS Depth, Part       \* Part: "init" | "assign" | "field" | "arg" | "return" | "use"
 
 NTys == {"Int", "Str", "Bool", "Float", "A"}
-Sources == {"none", "nullable", "value", "defaulted"}
-SrcType(T, s) == CASE s = "none" -> NoneT [] s = "nullable" -> NT(T, TRUE) [] s = "value" -> NT(T, FALSE) [] s = "defaulted" -> NT(T, FALSE)
+\* "call": the result of a function declared -> T?;  "call-via-var": that result first stored in a variable WITHOUT annotation (two steps:
+\* the nullability has to survive type inference of the variable)
+Sources == {"none", "nullable", "value", "defaulted", "call", "call-via-var"}
+SrcType(T, s) == CASE s = "none" -> NoneT [] s \in {"nullable", "call", "call-via-var"} -> NT(T, TRUE) [] s = "value" -> NT(T, FALSE) [] s = "defaulted" -> NT(T, FALSE)
 SrcE(T, s) == CASE s = "none" -> NoneL [] s = "nullable" -> VarOf(NT(T, TRUE)) [] s = "value" -> Lit(T)
                 [] s = "defaulted" -> QDef(VarOf(NT(T, TRUE)), Lit(T))
-SrcSetup(T, s) == IF s \in {"nullable", "defaulted"} THEN <<VarSetup(NT(T, TRUE))>> ELSE <<>>
+                [] s = "call" -> Call("mk_" \o T, <<Lit(T)>>) [] s = "call-via-var" -> Var("w_" \o T)
+SrcSetup(T, s) == IF s \in {"nullable", "defaulted"} THEN <<VarSetup(NT(T, TRUE))>>
+                  ELSE IF s = "call-via-var" THEN <<Def("w_" \o T, TRUE, "", Call("mk_" \o T, <<Lit(T)>>))>> ELSE <<>>
+MkOrder == <<"Int", "Str", "Bool", "Float", "A", "B", "D">>
+\* (mk_T returns its parameter: a body that is textually equal to the body of another function with another return type
+\*  would be conflated with it by today's checker - that is the separate probe "null-return-twin", KF-C06-2)
+MkDecls == [j \in 1..Len(MkOrder) |-> Fun("mk_" \o MkOrder[j], <<Param("mkv", MkOrder[j], Absent)>>, MkOrder[j] \o "?", <<>>, <<Ret(Var("mkv"))>>)]
 
 Probe(kind, decls, setup, stmts, writes, ok, note) ==
-    [kind |-> kind, decls |-> ClassDecls \o decls, setup |-> setup, stmts |-> stmts, writes |-> writes,
+    [kind |-> kind, decls |-> ClassDecls \o MkDecls \o decls, setup |-> setup, stmts |-> stmts, writes |-> writes,
      expect |-> Verdict(ok), note |-> note]
 \* the target slot has base type U: the source's own type T or a PROPER SUPERTYPE of it (Int -> Float, B -> A, D -> B, A): nullability
 \* must be checked also when the classes differ
@@ -45,26 +53,31 @@ ReturnProbes == { Probe("null-return", <<Fun("k", <<Param(VarName(NT(g[1], TRUE)
                                           <<IF shape = "explicit" THEN Ret(SrcE(g[1], g[3])) ELSE Expr(SrcE(g[1], g[3]))>>)>>,
                         <<>>, <<PrintS(StrL("x"))>>, FALSE, OK4(g[1], g[2], g[3], g[4]), Note4(g[1], g[2], g[3], g[4]) @@ [shape |-> shape])
                   : g \in Grid, shape \in {"implicit", "explicit"} }
+\* two functions with textually equal bodies, one returning T?, the other T: both conform
+TwinProbes == { Probe("null-return-twin", <<Fun("tw1", <<>>, T \o "?", <<>>, <<IF shape = "explicit" THEN Ret(Lit(T)) ELSE Expr(Lit(T))>>),
+                                            Fun("tw2", <<>>, T, <<>>, <<IF shape = "explicit" THEN Ret(Lit(T)) ELSE Expr(Lit(T))>>)>>,
+                      <<>>, <<PrintS(StrL("x"))>>, FALSE, TRUE, Note4(T, TRUE, "value", T) @@ [shape |-> shape])
+                : T \in NTys, shape \in {"implicit", "explicit"} }
 \* operand of an operator / receiver of a method / field read of T: only a non-null value may be used
 UseE(T, e) == CASE T = "Int" -> Bin("+", e, IntL(1)) [] T = "Float" -> Bin("+", e, FloatL("1.5")) [] T = "Str" -> Bin("+", e, StrL("t"))
                 [] T = "Bool" -> Bin("and", e, BoolL(TRUE)) [] T = "A" -> MCall(e, "m", <<>>)
 UseDecls == <<Class("A", <<>>, <<>>, <<>>, <<Method("m", TRUE, <<>>, "Int", <<>>, <<Expr(IntL(7))>>)>>),
               Class("B", <<>>, <<Parent("A", <<>>)>>, <<>>, <<>>), Class("C", <<>>, <<>>, <<>>, <<>>), Class("D", <<>>, <<Parent("B", <<>>)>>, <<>>, <<>>)>>
 UseProbes    == { [ Probe("null-use", <<>>, SrcSetup(T, s), <<Expr(UseE(T, SrcE(T, s)))>>, FALSE, s \in {"value", "defaulted"}, Note(T, FALSE, s))
-                    EXCEPT !.decls = UseDecls ]
-                  : T \in NTys, s \in {"nullable", "value", "defaulted"} }
+                    EXCEPT !.decls = UseDecls \o MkDecls ]
+                  : T \in NTys, s \in {"nullable", "value", "defaulted", "call", "call-via-var"} }
 
 Probes == CASE Part = "init" -> InitProbes [] Part = "assign" -> AssignProbes [] Part = "field" -> FieldProbes
-            [] Part = "arg" -> ArgProbes [] Part = "return" -> ReturnProbes [] Part = "use" -> UseProbes
-InDecl(p) == p.kind \in {"null-return"}
+            [] Part = "arg" -> ArgProbes [] Part = "return" -> ReturnProbes \cup TwinProbes [] Part = "use" -> UseProbes
+InDecl(p) == p.kind \in {"null-return", "null-return-twin"}
 
 Cases == { [prop |-> "C06", kind |-> p.kind, ctx |-> ctx, hoist |-> h, expect |-> p.expect, note |-> p.note, prog |-> Plug(ctx, h, p)]
            : p \in Probes, ctx \in Ctxs(Wrappers, Depth), h \in BOOLEAN }
 VARIABLE c
 Init == c \in { x \in Cases : /\ (x.hoist => Len(x.ctx) > 0 /\ x.kind # "null-return"
                                              /\ ~(x.kind \in {"null-assign", "null-field"} /\ FunBoundary(x.ctx))
-                                             /\ (x.note.source \in {"nullable", "defaulted"} \/ x.kind \in {"null-assign", "null-field"}))
-                              /\ (x.kind = "null-return" => x.ctx = <<>>) }
+                                             /\ (x.note.source \in {"nullable", "defaulted", "call-via-var"} \/ x.kind \in {"null-assign", "null-field"}))
+                              /\ (x.kind \in {"null-return", "null-return-twin"} => x.ctx = <<>> /\ ~x.hoist) }
 Next == UNCHANGED c
 Emit == PrintT("@@" \o ToJson(c))
 =====================================================================================
